@@ -257,8 +257,12 @@ Fixpoint restore_files (R : rfaults) (pre : bytes) (bk : tree) (files : list pat
 
 Inductive rresult := ROk | RFailed.
 
-(* [strict] = false: the code as it is (a per-file failure is logged and forgotten);
-   [strict] = true : the proposed repair (failures are counted and make the restore fail). *)
+(* [strict] = true : the current code (/repo 903522c: failures are counted and make the restore fail);
+   [strict] = false: the previous code (a per-file failure was logged and forgotten).
+   A fault is "the streaming call for this path fails"; the code makes exactly one ReadTo and one
+   WriteReader call per file (no retry), and a failed call leaves the store unchanged, so it does not
+   matter to the model whether the call failed before touching the stream or after moving k bytes of
+   it, nor whether a second call would have succeeded - the harness injects all of these shapes. *)
 Definition restore_backup (strict : bool) (R : rfaults) (id : bytes) (bk : bstore) (dst : tree)
   : rresult * progress * tree :=
   match (if rf_read_manifest R then None else plookup id (bs_manifests bk)) with
